@@ -1245,6 +1245,8 @@ class Ev:
         if op == "LOADW":
             n = self.num(t[1], penv)
             a = need_bv(P(t[2], penv, lets), "LOADW")
+            if a[1] != 32:
+                raise ILTypeError(f"LOADW address is {a[1]} bits wide (memory keys are 32 bit)")
             return bv(n, m.load(a[2], n))
         if op in ("U8", "U16", "U32", "U64", "S8", "S16", "S32", "S64"):
             return bv(int(op[1:]), self.num(t[1], penv))
@@ -1387,6 +1389,8 @@ class Ev:
             return
         if op == "STOREW":
             a = need_bv(self.pure(t[1], penv, []), "STOREW addr")
+            if a[1] != 32:
+                raise ILTypeError(f"STOREW address is {a[1]} bits wide (memory keys are 32 bit)")
             v = need_bv(self.pure(t[2], penv, []), "STOREW val")
             m.store(a[2], v[1], v[2])
             return
